@@ -51,25 +51,27 @@ type Result struct {
 
 // Ctx is handed to every job.
 type Ctx struct {
-	Job      string
-	Tier     string
-	Seed     int64
-	Shard    int
-	NShards  int
-	Only     int64 // >= 0: replay exactly this case index
-	Config   string
-	out      string
-	idx      int64
-	res      Result
-	keys     map[uint64]bool // low bit of value: nontrivial
-	start    time.Time
-	deadline time.Time
-	curIndex int64
-	lastTake int64
-	finished bool
-	stage    string
-	maxViol  int
-	Params   map[string]string
+	// 64-bit fields accessed atomically come first (alignment on 32-bit targets)
+	curIndex   int64
+	lastTake   int64
+	Job        string
+	Tier       string
+	Seed       int64
+	Shard      int
+	NShards    int
+	Only       int64 // >= 0: replay exactly this case index
+	Config     string
+	out        string
+	idx        int64
+	res        Result
+	keys       map[uint64]bool // low bit of value: nontrivial
+	start      time.Time
+	deadline   time.Time
+	transcript []string
+	finished   bool
+	stage      string
+	maxViol    int
+	Params     map[string]string
 }
 
 // Start reads the worker environment.
@@ -269,6 +271,17 @@ func (c *Ctx) Require(classes ...string) {
 // SetTranscript attaches a transcript file path (C08).
 func (c *Ctx) SetTranscript(p string) { c.res.Transcript = p }
 
+// Transcript records the output digest of the current case (C08: compared across build
+// configurations by the driver). In replay mode with an expected digest in VERIF_PARAMS
+// ("expect=<hex>") a mismatch is reported as a violation right here.
+func (c *Ctx) Transcript(digest []byte, describe func() map[string]interface{}) {
+	h := fmt.Sprintf("%x", digest)
+	c.transcript = append(c.transcript, fmt.Sprintf("%d %s", c.curIndex, h))
+	if exp, ok := c.Params["expect"]; ok && c.Only >= 0 && exp != h {
+		c.Violation(c.Params["key"], "output digest differs from the one recorded for the reference configuration", describe())
+	}
+}
+
 // OutPath is the result file path (workers may write side files next to it).
 func (c *Ctx) OutPath() string { return c.out }
 
@@ -298,6 +311,11 @@ func (c *Ctx) Finish() {
 	}
 	if err := ioutil.WriteFile(c.out, b, 0644); err != nil {
 		panic(err)
+	}
+	if len(c.transcript) > 0 {
+		if err := ioutil.WriteFile(c.out+".transcript", []byte(strings.Join(c.transcript, "\n")+"\n"), 0644); err != nil {
+			panic(err)
+		}
 	}
 	ks := make([]uint64, 0, len(c.keys))
 	for k := range c.keys {
